@@ -110,7 +110,8 @@ pub fn history_from_bytes(data: &[u8]) -> Option<History> {
             kt,
             params,
             keys,
-        }],
+                late: false,
+            }],
         ops,
         obs: Obs {
             decode_at_close: true,
